@@ -463,8 +463,16 @@ type gRPCWebServerStream struct {
 	r *http.Request
 }
 
+// Method returns the gRPC method name, which is the request path exactly as it was written on the request line:
+// gRPC never percent-decodes :path, so neither must gRPC-Web, otherwise a path such as /pkg%2ESvc/Method would be
+// routed to pkg.Svc here while the same bytes sent as gRPC or as an HTTP POST name an unknown service.
+// The extraction mirrors routing.ServiceRouter.RouteHTTP.
 func (s *gRPCWebServerStream) Method() string {
-	return s.r.URL.Path
+	if rawPath := s.r.URL.RawPath; rawPath != "" {
+		return rawPath
+	}
+
+	return s.r.URL.EscapedPath()
 }
 
 func (s *gRPCWebServerStream) SendHeader(md metadata.MD) error {
